@@ -40,6 +40,7 @@ def block_case(rng, mode, n_ops, with_state=True, oneshot=False, padded=False, d
                 c.ops.append(f"paddec {hx(rb(rng, L))}")
         elif with_state and not dcalls:
             c.ops.append("ivstate")
+    c.ops = reroute(rng, c.ops)
     if dcalls:
         c.ops.append("dcalls")
     if with_state:
